@@ -56,6 +56,22 @@ def read_all_digest():
     return h
 
 
+def scramble(obj, seen):
+    """edit, in place, every number and enumeration value reachable from a layout object"""
+    import enum
+    if obj is None or id(obj) in seen or not hasattr(obj, "__dict__"):
+        return
+    seen.add(id(obj))
+    for k, v in list(vars(obj).items()):
+        if isinstance(v, enum.Enum):
+            members = list(type(v))
+            setattr(obj, k, members[(members.index(v) + 1) % len(members)])
+        elif isinstance(v, (int, float)) and not isinstance(v, bool):
+            setattr(obj, k, v + 1.5)
+        else:
+            scramble(v, seen)
+
+
 def bounded(ctx, b):
     docs = samples.all_docs()
     for fmt, ds in docs.items():
@@ -87,6 +103,7 @@ def bounded(ctx, b):
                     # ... nor does editing the layout objects hanging off it (objects must not be shared between reads)
                     for lay in [c0.layout_info] + [n_.layout_info for n_ in c0.nodes]:
                         if lay is not None:
+                            scramble(lay, set())        # in-place edits of the alignment / point / size objects below it
                             lay.origin, lay.extent, lay.alignment = None, None, None
                     first.get_captions(lang).append(copy.deepcopy(c0))
                 # unrelated activity in the process
